@@ -15,7 +15,7 @@ GEN = ["gen_partition"]
 CORRESPONDENCES = ["partition:_partition_write_loads~model", "select:partition_write_reqs~model",
                    "consolidate:consolidate_replicated_entries~model", "replicated_paths:_calculate_replicated_entries~model"]
 RULE = ("(1) real _partition_write_loads on generated load vectors (W 1..8, whole-path and chunked units, sizes incl. 0, "
-        "equal sizes for ties; thorough: bounded-exhaustive W<=4, <=5 units, sizes<=4, starting loads<=3); (2) real "
+        "equal sizes for ties; thorough: bounded-exhaustive W<=4, starting loads<=3, sizes<=4, <=5 chunk units (<=4 for W=4 plus a sample of 5) and <=3 whole-path units (<=2 for W=4)); (2) real "
         "partition_write_reqs + consolidate_replicated_entries in the simulated world (1..8 ranks) on entries/write requests "
         "of the real prepare_write for generated replicated/private tensors (dtypes, 1-D/2-D, zero-length, chunk "
         "thresholds) and objects; (3) real Snapshot.take + Snapshot.restore on every rank with replicated globs (**, m/*, "
@@ -315,17 +315,21 @@ def direct_specs(ctx: Ctx):
     return out
 
 
-def exhaustive_specs():
-    """W <= 4, starting loads <= 3, sizes <= 4, <= 5 units.  Chunk units: every multiset of <= 5 sizes (the visit order of
-    the set is Python's, not ours); whole-path units: every sequence of <= 4 sizes for W <= 3 and <= 2 for W = 4."""
+def exhaustive_specs(rng):
+    """Starting loads <= 3, sizes <= 4.  Chunk units (second loop): every multiset of <= 5 sizes for W <= 3 and of <= 4
+    sizes for W = 4 (the visit order of the set is Python's, not ours), plus a sample of 5-unit multisets for W = 4;
+    whole-path units (first loop): every sequence of <= 3 sizes for W <= 3 and of <= 2 sizes for W = 4."""
     for W in (1, 2, 3, 4):
         for start in itertools.product(range(4), repeat=W):
-            for n in range(0, 6):
+            for n in range(0, (5 if W <= 3 else 4) + 1):
                 for ms in itertools.combinations_with_replacement(range(5), n):
                     yield {"W": W, "start": list(start), "units": [["c", "chunk", list(ms)]]}
-            for n in range(1, (4 if W <= 3 else 2) + 1):
+            for n in range(1, (3 if W <= 3 else 2) + 1):
                 for seq in itertools.product(range(5), repeat=n):
                     yield {"W": W, "start": list(start), "units": [[f"p{i}", "whole", [s]] for i, s in enumerate(seq)]}
+    five = list(itertools.combinations_with_replacement(range(5), 5))
+    for _ in range(3000):
+        yield {"W": 4, "start": [rng.randrange(4) for _ in range(4)], "units": [["c", "chunk", list(rng.choice(five))]]}
 
 
 def check_direct(ctx: Ctx, res: Result):
@@ -333,7 +337,7 @@ def check_direct(ctx: Ctx, res: Result):
     specs = direct_specs(ctx)
     nrand = len(specs)
     if ctx.thorough:
-        specs = itertools.chain(specs, exhaustive_specs())
+        specs = itertools.chain(specs, exhaustive_specs(ctx.rng))
         res.exhaustive = True
     for k, spec in enumerate(specs):
         call = run_direct(spec)
@@ -776,7 +780,7 @@ def oracle_take(spec, run, res: Result):
 
 def check_take(ctx: Ctx, res: Result):
     pc, pmeta = [], []
-    for _ in range(ctx.n(45, 300)):
+    for _ in range(ctx.n(45, 220)):
         spec = gen_take_scenario(ctx)
         run = run_take_scenario(ctx, spec)
         res.case(spec, nontrivial=spec["W"] >= 2 and bool(spec["globs"]))
